@@ -295,22 +295,32 @@ async fn read_until_sentinel(peer: &mut PeerConn, sentinel: &[u8], wait: Duratio
 static HOOK_HITS: AtomicUsize = AtomicUsize::new(0);
 
 async fn connect_pair(epmd: &FakeEpmd, case: usize, header: bool, dev: Deviation, timeout_ms: u64) -> (Connection, edp_client::Result<()>, Option<PeerConn>) {
-    let (conn, res, peer) = connect_pair_h(epmd, case, header, dev, timeout_ms).await;
+    connect_pair2(epmd, case, header, header, dev, timeout_ms).await
+}
+
+/// `local_header`: this side is configured with DIST_HDR_ATOM_CACHE; `peer_header`: the peer's challenge advertises it. The
+/// framing mode is the NEGOTIATED one (both), not the configured one (seeded change S88).
+async fn connect_pair2(epmd: &FakeEpmd, case: usize, local_header: bool, peer_header: bool, dev: Deviation, timeout_ms: u64) -> (Connection, edp_client::Result<()>, Option<PeerConn>) {
+    let (conn, res, peer) = connect_pair_h2(epmd, case, local_header, peer_header, dev, timeout_ms).await;
     let p = tokio::time::timeout(Duration::from_secs(5), peer).await.ok().and_then(|r| r.ok()).flatten();
     (conn, res, p)
 }
 
 async fn connect_pair_h(epmd: &FakeEpmd, case: usize, header: bool, dev: Deviation, timeout_ms: u64) -> (Connection, edp_client::Result<()>, tokio::task::JoinHandle<Option<PeerConn>>) {
+    connect_pair_h2(epmd, case, header, header, dev, timeout_ms).await
+}
+
+async fn connect_pair_h2(epmd: &FakeEpmd, case: usize, local_header: bool, peer_header: bool, dev: Deviation, timeout_ms: u64) -> (Connection, edp_client::Result<()>, tokio::task::JoinHandle<Option<PeerConn>>) {
     let short = format!("c07p{}", case);
     let listener = listen_as(epmd, &short).await;
     let mut pcfg = PeerCfg::new(&format!("{}@127.0.0.1", short), "c07cookie");
     pcfg.deviation = dev;
-    if header {
+    if peer_header {
         pcfg.flags |= 0x2000;
     }
     let peer = tokio::spawn(async move { accept_and_handshake(&listener, &pcfg).await });
     let mut flags = DistributionFlags::default().as_u64();
-    if header {
+    if local_header {
         flags |= 0x2000;
     }
     let cfg = ConnectionConfig::new(format!("c07c{}@127.0.0.1", case), format!("{}@127.0.0.1", short), "c07cookie")
@@ -327,14 +337,19 @@ fn neg_text(c: &Connection) -> String {
 
 async fn part_a(ctx: &mut Ctx, epmd: &FakeEpmd, case: &mut usize) {
     let cfg = Cfg::default();
-    for header in [false, true] {
+    for (local_header, peer_header) in [(false, false), (true, true), (true, false), (false, true)] {
         *case += 1;
+        let header = local_header && peer_header;
+        let asymmetric = local_header != peer_header;
         let mode = if header { "hdr" } else { "pt" };
+        if asymmetric {
+            ctx.count("asymmetric_header_flag_connections");
+        }
         // a loaded machine may miss a timeout during set-up: try again before calling it a failure
         let mut pair = None;
         let mut why = String::new();
         for _attempt in 0..3 {
-            let (conn, res, peer) = connect_pair(epmd, *case, header, Deviation::None, 5000).await;
+            let (conn, res, peer) = connect_pair2(epmd, *case, local_header, peer_header, Deviation::None, 5000).await;
             match (peer, res.is_ok() && conn.is_connected()) {
                 (Some(p), true) => {
                     pair = Some((conn, p));
@@ -357,7 +372,7 @@ async fn part_a(ctx: &mut Ctx, epmd: &FakeEpmd, case: &mut usize) {
             ctx.fail("c07-setup", &format!("mode={} negotiated flags {}", mode, neg));
             continue;
         }
-        let n = ctx.n(260, 2500);
+        let n = if asymmetric { ctx.n(40, 400) } else { ctx.n(260, 2500) };
         let mut prev: Option<Op> = None;
         // the limit of ONE header: control tuple and payload together name exactly 253..258 distinct atoms (the count is a
         // one-byte field: 255 is the most a header can carry), for a send (cookie '' + one node name in the control tuple)
@@ -383,6 +398,9 @@ async fn part_a(ctx: &mut Ctx, epmd: &FakeEpmd, case: &mut usize) {
             }
         }
         boundary.reverse();
+        if asymmetric {
+            boundary.clear();
+        }
         for i in 0..n {
             // a third of the operations are variants of the one before (same kind, `==` arguments in another form, …)
             let op = match (&prev, boundary.pop()) {
